@@ -175,6 +175,9 @@ pub struct Attempt {
     /// resolve the globals while the script's top-level chunk runs (captured in locals) instead of inside validate()
     #[serde(default)]
     pub early: bool,
+    /// perform the whole attempt while the script's top-level chunk runs; validate() only reports what happened
+    #[serde(default)]
+    pub at_load: bool,
 }
 
 /// Ways to reach a global by name. `{N}` is the name; `{H:x}` a helper function obtained through the outer route.
@@ -232,6 +235,12 @@ pub fn program(a: &Attempt, dir: &str) -> String {
     } else {
         format!("{resolver}local function G(name) return RESOLVE(name) end\n")
     };
+    if a.at_load {
+        return format!(
+            "local DIR = {dir:?}\nlocal CANARY = DIR .. '/canary.txt'\nlocal LIBC = {:?}\n{g_fn}local OK, RES = pcall(function()\n    {body}\n    return 'contained:nothing-happened'\n  end)\nfunction validate(ctx, content)\n  if OK then return RES end\n  return 'contained:' .. tostring(RES)\nend\n",
+            libc_path()
+        );
+    }
     format!(
         "local DIR = {dir:?}\nlocal CANARY = DIR .. '/canary.txt'\nlocal LIBC = {:?}\n{g_fn}function validate(ctx, content)\n  local ok, res = pcall(function()\n    {body}\n    return 'contained:nothing-happened'\n  end)\n  if ok then return res end\n  return 'contained:' .. tostring(res)\nend\n",
         libc_path()
@@ -281,8 +290,11 @@ pub fn check_attempt(a: &Attempt, probe: &Probe) -> Verdict {
     }
     probe.nontrivial();
     probe.class(&format!("goal:{glabel}"));
-    probe.sample(|| json!({"goal": glabel, "route": ROUTES[a.route % ROUTES.len()], "outer": OUTER[a.outer % OUTER.len()], "resolved_at": if a.early { "chunk load" } else { "inside validate()" }, "works_in": min_mode}));
+    probe.sample(|| json!({"goal": glabel, "route": ROUTES[a.route % ROUTES.len()], "outer": OUTER[a.outer % OUTER.len()], "resolved_at": if a.early { "chunk load" } else { "inside validate()" }, "performed_at": if a.at_load { "chunk load" } else { "inside validate()" }, "works_in": min_mode}));
     probe.class(if a.early { "resolved-at:chunk-load" } else { "resolved-at:validate" });
+    if a.at_load {
+        probe.class("performed-at:chunk-load");
+    }
     for (label, value, class) in MODES {
         let must_contain = match *class {
             "default" => true,
@@ -319,9 +331,10 @@ pub fn attempts(full: bool) -> Vec<Attempt> {
                 if !full && outer != 0 && (goal + route + outer) % 3 != 0 {
                     continue;
                 }
-                v.push(Attempt { goal, route, outer, early: false });
+                v.push(Attempt { goal, route, outer, early: false, at_load: false });
                 if outer == 0 {
-                    v.push(Attempt { goal, route, outer, early: true });
+                    v.push(Attempt { goal, route, outer, early: true, at_load: false });
+                    v.push(Attempt { goal, route, outer, early: false, at_load: true });
                 }
             }
         }
@@ -330,7 +343,7 @@ pub fn attempts(full: bool) -> Vec<Attempt> {
 }
 
 pub fn run(run: &mut Run) {
-    run.rule = "enumerated: (1) a reachability enumerator script, run both while the script's top-level chunk executes and inside validate() (breadth-first walk with sorted keys from _G, the string metatable and the metatable of every reached value) is run in 9 settings of BLOCKWATCH_LUA_MODE (unset, sandboxed, Sandboxed, empty, garbage, SAFE, `unsafe ` with a space, safe, unsafe) and every reachable function/userdata/thread is compared with an allow-list written from the Lua 5.4 manual (default: base library minus dofile/loadfile, coroutine, table, string, utf8, math, no io/os/package/debug/require; safe: io, os, package, require present, debug absent; unsafe: debug present); (2) escape attempts goal (14: read/create/remove files, run commands, read environment, load code from disk via dofile/loadfile/require, own source, native module via loadlib, debug registry) x route to the global (13: direct, _G[...], rawget, load, load with custom env, pcall/select, coroutine.wrap, pairs copy, next walk, _G._G, string metatable, string.dump+load, xpcall) x route to the helper functions (4) x moment of resolution (inside validate(), or captured while the script's top-level chunk runs), each first run in the permissive mode it needs (positive control; attempts that do not work there are dropped) and then in every default-class setting (and, for native-module/debug goals, in safe), where it must fail and leave the jail directory byte-identical. Evaluations count reachable edges and runs; non-trivial = every enumerator run and every attempt that passes its positive control.".into();
+    run.rule = "enumerated: (1) a reachability enumerator script, run both while the script's top-level chunk executes and inside validate() (breadth-first walk with sorted keys from _G, the string metatable and the metatable of every reached value) is run in 9 settings of BLOCKWATCH_LUA_MODE (unset, sandboxed, Sandboxed, empty, garbage, SAFE, `unsafe ` with a space, safe, unsafe) and every reachable function/userdata/thread is compared with an allow-list written from the Lua 5.4 manual (default: base library minus dofile/loadfile, coroutine, table, string, utf8, math, no io/os/package/debug/require; safe: io, os, package, require present, debug absent; unsafe: debug present); (2) escape attempts goal (14: read/create/remove files, run commands, read environment, load code from disk via dofile/loadfile/require, own source, native module via loadlib, debug registry) x route to the global (13: direct, _G[...], rawget, load, load with custom env, pcall/select, coroutine.wrap, pairs copy, next walk, _G._G, string metatable, string.dump+load, xpcall) x route to the helper functions (4) x moment (resolved and performed inside validate(); globals captured while the script's top-level chunk runs; or the whole attempt performed by the top-level chunk, validate() only reporting its outcome), each first run in the permissive mode it needs (positive control; attempts that do not work there are dropped) and then in every default-class setting (and, for native-module/debug goals, in safe), where it must fail and leave the jail directory byte-identical. Evaluations count reachable edges and runs; non-trivial = every enumerator run and every attempt that passes its positive control.".into();
     run.assumptions = vec!["Lua has no ambient authority beyond values reachable from the script's environment: the enumerator decides the property for every script, the attempts are concrete confirmations".into()];
     let modes: Vec<ModeCase> = (0..MODES.len()).map(|mode| ModeCase { mode }).collect();
     run.enumerate("reach", modes, Some("9 settings of BLOCKWATCH_LUA_MODE x the whole reachable graph"), check_reach);
